@@ -129,7 +129,13 @@ func verifGenKV(r *zzverif.Rng) []verifKV {
 		case 2:
 			out = append(out, verifKV{k, "bool", r.Bool()})
 		case 3:
-			out = append(out, verifKV{k, "str", string(r.Bytes(r.Pick3(0, 3, 40)))})
+			sl := r.Pick3(0, 3, 40)
+			if r.Chance(1, 12) {
+				// longer than the decoder's 16 KiB scratch buffer and its 32 KiB read buffer: the growing-buffer path,
+				// short reads in the middle of the value
+				sl = zzverif.Pick(r, []int{16383, 16384, 16385, 20000, 32768, 40000, 70000})
+			}
+			out = append(out, verifKV{k, "str", string(r.Bytes(sl))})
 		case 4:
 			a := make([]int32, alen)
 			for i := range a {
@@ -453,6 +459,35 @@ func verifC05Case(out *zzverif.Out, dir string, kvs []verifKV, ts []verifTensor,
 	}
 	if kind, detail := verifC05Property(data, kvs, order, maxArray); kind != "" {
 		out.L2(kind, encLine, detail)
+	}
+	// the same file as the second model of a bigger file (create decodes several models back to back from one
+	// reader): every position the decoder reports is an absolute file offset
+	if len(data) < 4096 && (len(data)+len(kvs))%3 == 0 {
+		for _, pre := range []int{1, 24, 32, 100, 4096, 40000} {
+			whole := append(make([]byte, pre), data...)
+			for i := 0; i < pre; i++ {
+				whole[i] = byte(i*7 + 1)
+			}
+			rd := bytes.NewReader(whole)
+			rd.Seek(int64(pre), io.SeekStart)
+			g2, end2, err2 := Decode(rd, maxArray)
+			atLine := fmt.Sprintf("gguf-dec-at %d %d %s", maxArray, pre, zzverif.Hex(whole))
+			if err2 != nil {
+				out.Case(atLine, "err:"+err2.Error())
+			} else {
+				out.Case(atLine, verifSummary(g2, end2))
+				// property at the shifted position when the shift keeps the alignment: same tensors, locations moved by pre
+				if g, _, err := Decode(bytes.NewReader(data), maxArray); err == nil {
+					al := int(g.KV().Uint("general.alignment", 32))
+					if al > 0 && pre%al == 0 && len(g.Tensors().Items()) > 0 {
+						if g2.Tensors().Offset != g.Tensors().Offset+uint64(pre) || end2 != int64(len(whole)) {
+							out.L2("decode-at-offset", atLine, fmt.Sprintf("decoded at file offset %d: tensor data start %d (standalone %d), end %d (file %d)", pre, g2.Tensors().Offset, g.Tensors().Offset, end2, len(whole)))
+						}
+					}
+				}
+			}
+			out.Count("decode_at_offset_cases")
+		}
 	}
 	out.Count("cases")
 	out.Add("tensors", len(ts))
